@@ -172,6 +172,8 @@ def check(db, rep):
         r4.violation('UpdateExpressions', '%s:%d' % (ue.file, ue.line), 'mentions are not rewritten for every constituent on both sides of the core')
 
     # ------------------------------------------------------------------ r5
+    r8 = rep.rule('r8', 'TRANSLATION-CLOSED: the translation returned by duplicate elimination maps every erased constituent to a constituent that still exists (interpreted on schemas with chains of duplicates)', 1)
+    duplicates_evaluated(db, r8)
     r5 = rep.rule('r5', 'MERGE: MergeWith interpreted on small schemas: every constituent of the second schema is copied and recorded in the returned translation, and each copy carries the source texts with every mention renamed exactly once by the complete map', 1)
     merge_evaluated(db, r5)
     _admissible_table(db, rep)
@@ -427,3 +429,122 @@ def merge_evaluated(db, rule):
         rule.violation('MergeWith:evaluated', '%s:%d' % (mw.file, mw.line), bad)
     else:
         rule.ok('MergeWith:evaluated', '%d merge scenarios: every constituent copied, recorded, and every mention in its texts renamed exactly once' % len(cases), '%s:%d' % (mw.file, mw.line))
+
+
+# ---------------------------------------------------------------------------------------------- r8: duplicate elimination, evaluated
+class _LiveList(list):
+    """a std::list observed while elements other than the current one are erased: iteration continues with the element that follows the
+    current one in the list as it is then (erasing another element does not invalidate the iterator)"""
+    def __iter__(self):
+        cur = None
+        while True:
+            if cur is None:
+                nxt = self[0] if len(self) else None
+            else:
+                if cur in self:
+                    i = list.index(self, cur)
+                    nxt = self[i + 1] if i + 1 < len(self) else None
+                else:
+                    nxt = None            # the current element itself was erased: the library leaves the loop before this happens
+            if nxt is None:
+                return
+            cur = nxt
+            yield nxt
+
+
+def duplicates_evaluated(db, rule):
+    """RSForm::DeleteDuplicatesInternal interpreted on small schemas (a constituent = alias + the sequence of names its texts mention; two
+    are duplicates when the mentions are equal and not empty). Supplied: the list, record access, EraseInternal removes from the list, TranslateAll renames
+    mentions everywhere. Required of the returned translation: every erased constituent is mapped, and every value is a constituent that
+    still exists (an earlier survivor that is erased later must have its entries redirected)."""
+    from engine.evalmini import Interp, Obj, OutOfFragment, NOT_HANDLED
+    f = db.fn(S + 'RSForm::DeleteDuplicatesInternal', required=False)
+    if f is None:
+        rule.broken('anchor vanished: RSForm::DeleteDuplicatesInternal')
+        return
+
+    def scenario(csts):
+        recs = {i + 1: Obj(__cls__='cst', uid=i + 1, alias=a.encode(), mentions=[m.encode() for m in ms]) for i, (a, ms) in enumerate(csts)}
+        order = _LiveList(sorted(recs))
+        tr = {}
+
+        def on_call(it, fn, n, env):
+            cs = n.get('cs') or ''
+            last = cs.split('::')[-1]
+            Sx = fn.stmts
+            ev = lambda sid: it.eval(fn, Sx[sid], env)
+            a = lambda: [ev(x) for x in n.get('args', [])]
+            if last == 'List':
+                return order
+            if last in ('GetRS', 'GetText'):
+                return recs[a()[0]]
+            if last == 'IsEmpty' and cs.startswith(S):
+                return not ev(n['obj'])['mentions']
+            if n['k'] == 'CXXOperatorCallExpr' and n.get('op') in ('!=', '==') and cs.startswith((S + 'RSConcept::', S + 'TextConcept::')):
+                x, y = a()
+                return (x['mentions'] == y['mentions']) == (n['op'] == '==')
+            if last == 'EraseInternal':
+                uid = a()[0]
+                if uid in order:
+                    list.remove(order, uid)
+                    return True
+                return False
+            if last == 'CreateTranslator':
+                return Obj(__kind__='translator', m=dict(a()[0]))
+            if last == 'TranslateAll':
+                m = a()[0]['m']
+                for uid in list(order):
+                    recs[uid]['mentions'] = [m.get(bytes(x), x) for x in recs[uid]['mentions']]
+                return None
+            if 'EntityTranslation' in cs or (n.get('cls') or '').endswith('EntityTranslation'):
+                if n['k'] in ('CXXConstructExpr', 'CXXTemporaryObjectExpr'):
+                    args_ = a()
+                    if args_ and isinstance(args_[0], Obj) and args_[0].get('__kind__') == 'etr':
+                        return args_[0]
+                    return Obj(__kind__='etr', m={})
+                o = ev(n['obj']) if 'obj' in n else None
+                if last == 'Insert':
+                    k_, v_ = a()
+                    o['m'][k_] = v_
+                    return None
+                if last == 'SuperposeWith':
+                    step = a()[0]['m']
+                    for k_ in list(o['m']):
+                        if o['m'][k_] in step:
+                            o['m'][k_] = step[o['m'][k_]]
+                    for k_, v_ in step.items():
+                        o['m'].setdefault(k_, v_)
+                    return None
+            return NOT_HANDLED
+        res = Interp(db, on_call=on_call, max_steps=600000).call(f, [], Obj(__cls__=S + 'RSForm', core=Obj()))
+        m = res['m'] if isinstance(res, Obj) and 'm' in res else None
+        if m is None:
+            raise OutOfFragment('DeleteDuplicatesInternal returned %r' % type(res))
+        erased = [u for u in recs if u not in order]
+        name = lambda u: bytes(recs[u]['alias']).decode()
+        for u in erased:
+            if u not in m:
+                return 'the erased duplicate %s is not in the returned translation' % name(u)
+        for k_, v_ in m.items():
+            if v_ not in order:
+                return 'eliminating duplicates of %s returns the translation %s: %s is mapped to %s, which was itself erased later (the survivors are %s)' % (
+                    [(a_, ms) for a_, ms in csts], {name(x): name(y) for x, y in m.items()}, name(k_), name(v_), [name(x) for x in order])
+        return None
+    cases = [
+        [('X1', []), ('D1', ['X1']), ('D2', ['X1'])],
+        [('X1', ['base']), ('D1', ['X1']), ('X2', ['base']), ('D2', ['X2']), ('D3', ['X2'])],          # D3=D2 first, then X2->X1 makes D2=D1
+        [('D1', ['X1']), ('D2', ['X2']), ('D3', ['X2']), ('X1', ['b']), ('X2', ['b'])],
+        [('A1', ['q']), ('A2', ['q']), ('A3', ['q'])],
+        [('X1', ['p']), ('X2', ['p']), ('D1', ['X1', 'X2']), ('D2', ['X2', 'X1']), ('D3', ['X1', 'X1'])],
+    ]
+    bad = None
+    try:
+        for c in cases:
+            bad = bad or scenario(c)
+    except OutOfFragment as e:
+        rule.broken('DeleteDuplicatesInternal outside the evaluable fragment: %s' % e)
+        return
+    if bad:
+        rule.violation('DeleteDuplicates:evaluated', '%s:%d' % (f.file, f.line), bad)
+    else:
+        rule.ok('DeleteDuplicates:evaluated', '%d schemas with chains of duplicates: every erased constituent is mapped to a surviving one' % len(cases), '%s:%d' % (f.file, f.line))
